@@ -770,7 +770,7 @@ func classesOf(h *History) map[string]bool {
 	m := map[string]bool{}
 	for i := range h.Ops {
 		o := &h.Ops[i]
-		if (o.Kind == OSet && !o.V.IsNil()) || o.Kind == OReset {
+		if o.Kind == OSet && !o.V.IsNil() && !invalidKey(o.K) {
 			m[keyClass(o.K)] = true
 		}
 	}
